@@ -468,6 +468,7 @@ func (ex *Exec) pbGet(m *PRMsg, f *pbFieldInfo) *PRVal {
 	}
 	var holder *Loc // location holding the Go value
 	if m.L != nil {
+		ex.noteAccess(m.slot(f), false)
 		if f.Oneof != "" {
 			if w := ex.oneofWrapper(m, f); w != nil {
 				holder = w.Kids[0]
@@ -712,6 +713,7 @@ func (ex *Exec) pbMerge(dst, src *PRMsg) {
 	}
 	B := ex.B
 	for _, f := range src.Info.Fields {
+		ex.noteAccess(src.slot(f), false)
 		switch {
 		case f.Map:
 			smv, _ := src.slot(f).V.(MapV)
@@ -873,6 +875,8 @@ func (ex *Exec) pbEqualMsg(x, y *PRMsg) *smt.Term {
 	}
 	var cs []*smt.Term
 	for _, f := range x.Info.Fields {
+		ex.noteAccess(x.slot(f), false)
+		ex.noteAccess(y.slot(f), false)
 		switch {
 		case f.Map:
 			xm, _ := x.slot(f).V.(MapV)
